@@ -55,7 +55,7 @@ def unit(uid, entry, fn, clause, bound, mutants, assumes, tier="quick", defines=
          "link_keep": {"compile.c": compile_keep or COMPILE_KEEP, "wrap.c": wrap_keep or WRAP_KEEP},
          "harness": ["comp_specials.c"], "entry": entry, "mode": "plain", "nanbox": False,
          "functions": functions or [fn, "janetc_scope", "janetc_popscope", "janetc_emit", "janetc_copy"],
-         "replace_calls": [((r.split(":")[0] + ":" + ov[r.split(":")[0]]) if r.split(":")[0] in ov else r) for r in BASE_REPLACE] + (replace or []),
+         "replace_calls": [((r.split(":")[0] + ":" + ov[r.split(":")[0]]) if r.split(":")[0] in ov else r) for r in BASE_REPLACE if ov.get(r.split(":")[0], "") is not None] + (replace or []),
          "checks": CHECKS, "unwind": unwind, "unwindset": {"sp_run.0": 14}, "unwinding_assertions": True, "timeout": timeout,
          "assumes": assumes, "mutants": mutants, "defines": defines or []}
     if extra:
@@ -269,14 +269,18 @@ units[-2]["mutants"] = [QQM[2], QQM[3], QQM[5]]
 units[-1]["mutants"] = [QQM[4], QQM[5], QQM[2]]
 
 # ------------------------------------------------------------------ fn: parameter list
-units.append(unit(
-    "comp.fn.params", "h_fn", "janetc_fn",
+FN_TAILS = [(0, "none", "no tail"), (1, "rest", "& rest"), (2, "extra", "& alone (extra arguments ignored)"), (3, "keys", "&keys k"), (4, "named1", "&named n1"), (5, "named2", "&named n1 n2"), (None, "body", None)]
+FN_MUT = {}
+for FT, FTN, FTX in FN_TAILS:
+  units.append(unit(
+    "comp.fn." + FTN, "h_fn", "janetc_fn",
     "fn: for every parameter list of the documented grammar - fixed* [&opt opt+] [& rest | & | &keys k | &named n+] - arity counts the positional parameters, min arity those before &opt, "
     "max arity is arity unless &, &keys or &named accept more, VARARG / STRUCTARG say how the remaining arguments are collected; positional parameter k, then the rest parameter or "
     "&keys struct, is bound to register k (where the VM puts argument k), named parameters are destructured from the struct in register arity; the body is compiled in the new "
     "function scope in order, last form in tail position (empty body returns nil); the enclosing code gets exactly one CLOSURE of the registered definition and is marked as creating a closure; "
     "a symbol name allows self reference, a name is recorded in the definition",
-    "0..2 fixed and 0..2 optional symbol parameters, each tail variant, unnamed / symbol-named / keyword-named, 0..2 body forms; destructured (non-symbol) parameters not exercised; " + bound_ctx("any"),
+    (("all 9 parameter lists with 0..2 fixed and 0..2 optional symbol parameters and tail " + FTX + "; unnamed function, one body form; ") if FT is not None else
+     "parameter lists [p0] and [p0 & p1]; unnamed / symbol-named / keyword-named; 0..2 body forms; ") + "destructured (non-symbol) parameters not exercised; " + bound_ctx("any"),
     [M("rest-counts-as-positional", "                        vararg = 1;\n                        arity -= 2;\n                    } else {\n                        errmsg = \"& in unexpected location\";", "                        vararg = 1;\n                        arity -= 1;\n                    } else {\n                        errmsg = \"& in unexpected location\";", "arity = number of positional"),
      M("min-arity-off-by-one", "                    min_arity = i;\n                    arity--;", "                    min_arity = i + 1;\n                    arity--;", "min arity"),
      M("keys-not-structarg", "                        vararg = 1;\n                        structarg = 1;\n                        arity -= 2;", "                        vararg = 1;\n                        arity -= 2;", "STRUCTARG iff"),
@@ -293,7 +297,55 @@ units.append(unit(
              "janetc_pop_funcdef:sp_pop_funcdef_fn_stub", "janetc_addfuncdef:sp_addfuncdef_fn_stub", "janet_def_addflags:sp_addflags_stub"],
     grow="sp_grow_fn_stub", override={"janetc_regalloc_1": "sp_ra_1_seq_stub"}, wrap_keep=WRAP_KEEP + ["janet_wrap_keyword", "janet_wrap_table", "janet_unwrap_symbol"],
     functions=["janetc_fn", "janetc_farslot", "janetc_nameslot", "janetc_scope"],
-    unwind=10))
+    unwind=10, defines=(["-DSP_FN_TAIL=%d" % FT] if FT is not None else [])))
+  FM = units[-1]["mutants"]
+  units[-1]["mutants"] = {0: [FM[1], FM[4]], 1: [FM[0], FM[1]], 2: [FM[3], FM[4]], 3: [FM[2], FM[1]], 4: [FM[1], FM[3]], 5: [FM[4], FM[0]], None: [FM[5], FM[6], FM[0]]}[FT]
+units[-2]["mutants"][1] = M("named-struct-not-in-arity-slot", "                    namedargs = 1;\n                    named_table = janet_table(10);\n                    named_slot = janetc_farslot(c);", "                    namedargs = 1;\n                    named_table = janet_table(10);\n                    janetc_farslot(c);\n                    named_slot = janetc_farslot(c);", "register arity")
+units[-3]["mutants"][1] = M("named-not-structarg", "                    vararg = 1;\n                    structarg = 1;\n                    arity--;\n                    seenamp = 1;\n                    namedargs = 1;", "                    vararg = 1;\n                    arity--;\n                    seenamp = 1;\n                    namedargs = 1;", "STRUCTARG iff")
+
+# ------------------------------------------------------------------ def / var at top level
+TOP_REPLACE = ["janet_table:sp_table_top_stub", "janet_table_clone:sp_table_clone_stub", "janet_table_put:sp_table_put_rec_stub", "janet_table_get:sp_table_get_stub",
+               "janet_csymbol:sp_csymbol_stub", "janetc_make_sourcemap:sp_make_sourcemap_stub", "janet_resolve_ext:sp_resolve_ext_stub", "janet_array:sp_array_stub",
+               "janet_array_push:sp_array_push_stub", "janetc_emit_sss:sp_emit_sss_rec_stub", "janetc_emit_ssu:sp_emit_ssu_rec_stub"]
+TOP_A = [A_VALUE, A_RA, A_GROW2, A_ERR,
+         "tables and arrays are recording stubs: janet_table (metadata) / janet_table_clone (entry) return fixed objects, janet_table_put is logged, janet_table_get answers the :redef flag, "
+         "janet_resolve_ext the old binding of the name (none, def, var, redefinable def), janet_array / janet_array_push the new ref cell, janet_csymbol interns a C string as itself",
+         "janetc_emit_sss / janetc_emit_ssu record their operands and emit one instruction (their encoding is proved in the emit units)"]
+TOP_KEEP = BIND_KEEP
+TOP_WRAP = WRAP_KEEP + ["janet_wrap_keyword", "janet_wrap_table", "janet_wrap_array", "janet_wrap_tuple", "janet_wrap_symbol", "janet_wrap_true", "janet_unwrap_array"]
+units.append(unit(
+    "comp.def.top", "h_def_top", "janetc_def",
+    "def at top level: the value form is compiled once for its value; the environment maps the name to ONE new entry (copy of the metadata, source position); at run time the value is put "
+    "under :value into that entry - or, with :redef, stored into element 0 of the entry's ref cell (the old cell when the name was a redefinable definition, else a new [nil] cell); "
+    "the name is also bound for the rest of the chunk",
+    "(def name value) in the top-level scope; :redef on or off; old binding none / def / var / redefinable def; " + bound_ctx("any"),
+    [M("value-put-under-wrong-key", "            JanetSlot valsym = janetc_cslot(janet_ckeywordv(\"value\"));", "            JanetSlot valsym = janetc_cslot(janet_ckeywordv(\"ref\"));", "put under :value"),
+     M("env-entry-not-written", "        /* Add env entry to env */\n        janet_table_put(c->env, janet_wrap_symbol(sym), janet_wrap_table(entry));", "        /* Add env entry to env */", "entered into the environment"),
+     M("redef-always-new-cell", "            if (binding.type == JANET_BINDING_DYNAMIC_DEF || binding.type == JANET_BINDING_DYNAMIC_MACRO) {", "            if (0) {", "holds a ref cell|stored into element 0")],
+    TOP_A, compile_keep=TOP_KEEP, wrap_keep=TOP_WRAP, replace=TOP_REPLACE, grow="sp_grow_stub", functions=["janetc_def", "defleaf", "namelocal", "dohead_destructure", "destructure"]))
+units.append(unit(
+    "comp.var.top", "h_def_top", "janetc_var",
+    "var at top level: the value form is compiled once for its value; the environment maps the name to ONE new entry holding the ref cell - a new [nil] array, or with :redef the cell of the "
+    "variable being redefined; at run time the value is stored into element 0 of that cell; no local is created",
+    "(var name value) in the top-level scope; :redef on or off; old binding none / def / var / redefinable def; " + bound_ctx("any"),
+    [M("var-store-wrong-index", "        janetc_emit_ssu(c, JOP_PUT_INDEX, refslot, s, 0, 0);\n        return 1;\n    } else {", "        janetc_emit_ssu(c, JOP_PUT_INDEX, refslot, s, 1, 0);\n        return 1;\n    } else {", "element 0 of the ref cell"),
+     M("var-redef-ignores-old-cell", "        if (is_redef && (old_binding = janet_resolve_ext(c->env, sym),\n                         old_binding.type == JANET_BINDING_VAR)) {", "        if (0 && (old_binding = janet_resolve_ext(c->env, sym),\n                         old_binding.type == JANET_BINDING_VAR)) {", "holds the ref cell|new cell is created"),
+     M("var-ref-not-in-entry", "        janet_table_put(entry, janet_ckeywordv(\"ref\"), janet_wrap_array(ref));\n        janet_table_put(entry, janet_ckeywordv(\"source-map\"),", "        janet_table_put(entry, janet_ckeywordv(\"source-map\"),", "holds the ref cell")],
+    TOP_A, compile_keep=TOP_KEEP, wrap_keep=TOP_WRAP, replace=TOP_REPLACE, grow="sp_grow_stub", defines=["-DSP_VAR=1"], functions=["janetc_var", "varleaf", "dohead_destructure", "destructure"]))
+
+# ------------------------------------------------------------------ if in a fresh compiler (memory safety of the label patching)
+units.append(unit(
+    "comp.if.drop.fresh", "h_if_fresh", "janetc_if",
+    "if: compiling (if c a) with dropped value as the first code of a compiler (no instruction vector yet, real janet_v_grow) touches the instruction vector only inside its allocation; "
+    "the code is the condition and one conditional jump to the instruction after the if",
+    "(if c a), value dropped, no else branch; the condition a local or one instruction of code, the branch a constant; empty compiler (vectors NULL), real janet_v_grow with realloc never failing",
+    [M("jump-target-off-by-one", "    c->buffer[labeljr] |= (labelr - labeljr) << 16;", "    c->buffer[labeljr] |= (labelr - labeljr + 1) << 16;", "skips to the instruction after")],
+    [A_VALUE, A_RA, A_ERR, "janet_srealloc is realloc that never fails; janet_sfree is a no-op"],
+    override={"janet_v_grow": None}, replace=["janet_srealloc:sp_srealloc"], functions=["janetc_if", "janetc_emit", "janet_v_grow"],
+    extra={"src": ["specials.c", "emit.c", "vector.c"],
+           "finding": "FAILS on the pinned tree (genuine defect, memory safety): specials.c janetc_if `if (!tail) c->buffer[labeljd] |= (labeld - labeljd) << 8;` also runs when no JUMP was "
+                      "emitted (value dropped and no else branch): labeljd == count, a 4-byte read-modify-write one element past the vector when count == capacity (1 or 2 instructions). "
+                      "Reproducer: valgrind /repo/_build/janet -e '(fn [x] (if x 1) 2)' -> Invalid read of size 4 at janetc_if (specials.c:675), 0 bytes after the block allocated by janet_v_grow"}))
 
 json.dump({"units": units}, open(os.path.join(VERIF, "units", "C02_specials.json"), "w"), indent=1)
 print("wrote %d units" % len(units))
